@@ -18,7 +18,7 @@ ASSUMPTIONS = [
     "a parameter is 'settable by the caller' if two different accepted values produce different PDUs (DOPs of the generator are injective)",
     "required/free are judged on the top-level parameter list of the request/response (what required_parameters/free_parameters describe)",
 ]
-MUST_HIT = ["short-request-rejected", "prefix-other-request:pdu-differs", "table-key:static", "table-key:dynamic", "table-key:dynamic-key-only", "last-listed-not-last", "free-value-honoured-checked", "static-message", "dynamic-message", "prefix-checked", "prefix>=2", "omit-required", "omit-optional",
+MUST_HIT = ["table-struct-listed-first", "short-request-rejected", "prefix-other-request:pdu-differs", "table-key:static", "table-key:dynamic", "table-key:dynamic-key-only", "last-listed-not-last", "free-value-honoured-checked", "static-message", "dynamic-message", "prefix-checked", "prefix>=2", "omit-required", "omit-optional",
             "alt-free", "alt-nonfree", "object-static", "BYTE-SIZE", "default-value", "out-of-order", "pk:matchreq",
             "bitmask"]
 NT = {"bitmask", "condensed-mask", "BYTE-SIZE", "out-of-order", "default-value", "dct:paramlen", "struct", "sfield",
@@ -308,7 +308,7 @@ def shards(tier):
 def run_shard(spec, seed, tier):
     res = core.ShardResult()
     kf = known.load(PROPERTY)
-    opts = {"alt": True, "last_listed_not_last": True}
+    opts = {"alt": True, "last_listed_not_last": True, "table_struct_first": True}
     if spec[2] == "cond":
         opts["condensed"] = True
 
